@@ -373,6 +373,23 @@ fn mutate(cf: &mut Cf, step: &str) {
                 }
             }
         }
+        // a shrinking set_len through a handle whose cursor lies beyond the new length (it was moved to the end first); whatever
+        // the call answers, the handle is used on: position, relative seek, write, flush
+        "shrink_behind_cursor" => {
+            for p in streams(cf) {
+                if let Ok(mut s) = cf.open_stream(&p) {
+                    let _ = s.seek(SeekFrom::End(0));
+                    let _ = s.set_len(0);
+                    probe(&mut s);
+                    let _ = s.write(&[0x34u8; 10]);
+                    let _ = s.flush();
+                    probe(&mut s);
+                    let _ = s.seek(SeekFrom::End(0));
+                    let _ = s.set_len(3);
+                    probe(&mut s);
+                }
+            }
+        }
         "set_len_zero" => {
             for p in streams(cf) {
                 if let Ok(mut s) = cf.open_stream(&p) {
